@@ -720,6 +720,25 @@ fn hand_families() -> Vec<(Vec<Decl>, Ty)> {
 			],
 			Ty::Named(1, vec![]),
 		),
+		// a unit-only enum one of whose variants is called `Null`, under `Option` (record field, list
+		// item, map value): `Some(T0::Null)` is the enum's symbol, not the union's null branch
+		(
+			vec![
+				Decl { ident: "T0".into(), name_override: None, ns: None, nparams: 0, body: Body::UnitEnum(vec!["Null".into(), "V1".into(), "V2".into()]) },
+				rec(
+					"T1",
+					0,
+					None,
+					vec![
+						f("f0", Ty::Option(Box::new(Ty::Named(0, vec![])))),
+						f("f1", Ty::Vec(Box::new(Ty::Option(Box::new(Ty::Named(0, vec![])))))),
+						f("f2", Ty::BTreeMap(Box::new(Ty::Option(Box::new(Ty::Named(0, vec![])))))),
+						f("f3", Ty::Named(0, vec![])),
+					],
+				),
+			],
+			Ty::Named(1, vec![]),
+		),
 		// recursion and sharing
 		(
 			vec![
